@@ -37,6 +37,7 @@ HInit == [elected |-> {},      \* <<term, id>> of every replica seen as leader
           healed  |-> FALSE,   \* C17: the fault prefix is over
           probes  |-> {},      \* <<replica, value>> proposed after healing
           probectx |-> {},     \* <<replica, ctx>> reads requested after healing
+          probecc |-> {},      \* <<replica, ccval>> membership changes proposed after healing
           bad     |-> {}]      \* names of step-level property violations observed
 
 CMax(hh) == Len(hh.clog)
@@ -235,6 +236,7 @@ ProgressPred ==
           /\ IF node[n].kind = "W" THEN node[n].com = node[l].com ELSE node[n].aapp = node[l].com
     /\ \A p \in h.probes : p[1] \in Members(node[l]) => InLog(node[l], p[2])
     /\ \A p \in h.probectx : (p[1] \in Members(node[l]) /\ node[p[1]].kind # "W") => p[2] \in h.released
+    /\ \A p \in h.probecc : CCOp(p[2]) = RemoveOp => CCId(p[2]) \in node[l].mem.rm
 
 NoBad == h.bad = {}
 =============================================================================
